@@ -200,6 +200,30 @@ theorem newton_monotone_convex [Archimedean α] (S : Spec o nctCdf chi2Cdf) {n p
     rw [abs_of_nonneg (sub_nonneg.2 hm)]
     exact hj
 
+/-- **the vectorised loop stops**: `_getr` iterates all elements of the `(n, prob)` grid together until
+`np.any(abs(r - rold) > tol)` is false.  Under the hypotheses of `newton_monotone_convex` for every element
+there is a pass `k ≥ 1` after which NO element moved by more than `tol`. -/
+theorem newton_vector_stops [Archimedean α] (S : Spec o nctCdf chi2Cdf) {ι : Type} (J : Finset ι)
+    (n prob ρ r₀ : ι → α)
+    (hconc : ∀ j ∈ J, ∀ x y, 0 ≤ x → 0 ≤ y →
+      getrResidual o (n j) (prob j) y ≤
+        getrResidual o (n j) (prob j) x + getrDen o (n j) x * (y - x))
+    (hρ : ∀ j ∈ J, 0 ≤ ρ j) (hroot : ∀ j ∈ J, getrResidual o (n j) (prob j) (ρ j) = 0)
+    (h0 : ∀ j ∈ J, 0 ≤ r₀ j) (h1 : ∀ j ∈ J, 0 ≤ newtonStep o (n j) (prob j) (r₀ j))
+    {tol : α} (htol : 0 < tol) :
+    ∃ k, 1 ≤ k ∧ ∀ j ∈ J,
+      |(newtonStep o (n j) (prob j))^[k + 1] (r₀ j) - (newtonStep o (n j) (prob j))^[k] (r₀ j)| ≤ tol := by
+  have hall := fun j (hj : j ∈ J) =>
+    newton_monotone_convex S (hconc j hj) (hρ j hj) (hroot j hj) (h0 j hj) (h1 j hj)
+  obtain ⟨k, hk⟩ := Newton.exists_small_increment_all J
+    (fun j k => (newtonStep o (n j) (prob j))^[k + 1] (r₀ j)) ρ
+    (fun j hj k => (hall j hj).2.1 (k + 1) (by omega))
+    (fun j hj k => (hall j hj).1 (k + 1) (by omega)) htol
+  refine ⟨k + 1, by omega, fun j hj => ?_⟩
+  have hm := (hall j hj).2.1 (k + 1) (by omega)
+  rw [abs_of_nonneg (sub_nonneg.2 hm)]
+  exact hk j hj
+
 /-- non-vacuity of the concavity hypothesis: the linear instance `g x = x - 1`, `d = 1` (Newton lands on
 the root at once); that the normal-cdf residual satisfies it on `R ≥ 0` is measured by the oracle. -/
 example : Newton.Concave (fun x : ℚ => x - 1) (fun _ => 1) 0 :=
